@@ -161,7 +161,7 @@ uint64_t vh_hash(const void *p, size_t n)
     for (size_t i = 0; i < n; i++) { h ^= b[i]; h *= 1099511628211ull; }
     return h;
 }
-const char *vh_pat_name[PAT_N] = { "ramp", "impulse-last", "zero", "ones", "impulse-first" };
+const char *vh_pat_name[PAT_N] = { "ramp", "impulse-last", "zero", "ones", "impulse-first", "header-magic" };
 void vh_fill(uint8_t *p, size_t n, int pattern)
 {
     switch (pattern) {
@@ -170,6 +170,9 @@ void vh_fill(uint8_t *p, size_t n, int pattern)
     case PAT_ONES: memset(p, 0xff, n); break;
     case PAT_IMPULSE_FIRST: memset(p, 0, n); if (n) p[0] = 0x81; break;
     case PAT_IMPULSE_LAST: memset(p, 0, n); if (n) p[n - 1] = 0x81; break;
+    /* payload that looks like fragment headers: the header magic 0x0b0c5ecc (little endian) at every offset = 3 (mod 4), hence at
+     * offset 59 of every block whose start is a multiple of 4 - where a header keeps its magic */
+    case PAT_MAGIC: { static const uint8_t mg[4] = { 0x5e, 0x0c, 0x0b, 0xcc }; for (size_t i = 0; i < n; i++) p[i] = mg[i & 3]; break; }
     }
 }
 
